@@ -33,6 +33,26 @@ def main():
         rows.append("| %s | %s | %s | %s |" % (d.name, ", ".join(x.replace("src/vsc/", "") for x in m.get("files", [])),
                                               (m.get("summary") or "").replace("|", "\\|").replace("\n", " ")[:330], det.replace("|", "\\|")))
     t_seed = "| id | files | change (abridged) | result of my checks |\n|---|---|---|---|\n" + "\n".join(rows)
+    # per-property status from the manifest and the evidence of the last runs
+    MODELS = {"C01": "Expr, Lower, Typing, BV, Solve", "C02": "Solve, Expr, Lower", "C03": "World, Solve", "C04": "Unroll (+Expr)",
+              "C05": "Soft, World", "C06": "Dyn", "C07": "World", "C08": "World", "C09": "Rnd", "C10": "Cov/Rangelist, Partition, Coverpoint",
+              "C11": "Cov/Cross", "C12": "Cov/Covergroup", "C13": "Cov/Save", "C14": "Swizzle (+oracle)", "C15": "Select, Dist",
+              "C16": "Stacks", "C17": "World", "C18": "Val/Access (generated), Enum", "C19": "Cov/Wildcard", "C20": "Order"}
+    man = json.load(open(V / "MANIFEST.json"))
+    rows2 = []
+    for c in man.get("checks", man.get("properties", [])):
+        pid = c.get("property_id") or c.get("id")
+        evp = V / "evidence" / (pid + ".json")
+        ev = json.load(open(evp)) if evp.exists() else {}
+        cov = ev.get("coverage", {})
+        txt = json.dumps(c)
+        status = "PARTIAL" if "PARTIAL" in txt else "claimed"
+        kn = [f["sig"] for f in k["findings"] if f["property"] == pid]
+        rows2.append("| %s | %s | %s | %s/%s | %s (%s tier, %.0f s) | %s |" % (
+            pid, MODELS.get(pid, ""), status, cov.get("discharged", "?"), cov.get("obligations", "?"), cov.get("evaluations", "?"),
+            ev.get("tier", "?"), ev.get("wall_s", 0), ", ".join(kn) or "-"))
+    t_status = ("| id | model files (coq/Rand, coq/Cov, coq/Val) | status | theorems closed / stated in Prop file | evaluations in the last run | known findings |\n"
+                "|---|---|---|---|---|---|\n" + "\n".join(rows2))
     cq = V / "evidence" / "coqchk.txt"
     t_cq = ("* `coqchk -o` (independent checker over every compiled file of the development): " + cq.read_text().strip()) if cq.exists() \
         else "* `coqchk -o`: not run yet."
@@ -42,6 +62,7 @@ def main():
     s = block(s, "findings", "\n".join(finds))
     s = block(s, "seeded", t_seed)
     s = block(s, "coqchk", t_cq)
+    s = block(s, "status", t_status)
     p.write_text(s)
 
 
